@@ -361,7 +361,7 @@ def run_chargen_family(ctx, nrec, budgets=None, want=3, recipes=None):
     recs = recipes if recipes is not None else [gen_recipe(rng) for _ in range(nrec)]
     recs = with_resplits(rng, recs)
     for r in recs:
-        b = rng.choice(budgets or BUDGETS)
+        b = getattr(r, "budget", None) or rng.choice(budgets or BUDGETS)
         for words, feat in make_tapes(rng, r, b, want=want):
             meta = {"recipe": r.to_json(), "budget": b, "words": words if len(words) <= 48 else words[:48] + ["..."],
                     "features": feat, "_recipe": r, "_words": words}
